@@ -179,7 +179,7 @@ Lemma shapeA s s' t c' o' : inv s -> (t < nt s)%nat ->
   (forall j, obj s' j = if Nat.eqb j t then o' else obj s j) ->
   uaf s' = false ->
   tk c' = tk (ctl s t) ->
-  Nat.leb (lrank (lpc c')) 13 = Nat.leb (lrank (lpc (ctl s t))) 13 ->
+  (forall p, tk (ctl s t) = KSub p -> Nat.leb (lrank (lpc c')) 13 = Nat.leb (lrank (lpc (ctl s t))) 13) ->
   eu o' = eu (obj s t) ->
   tinvc t c' o' (msum s t) (csum s t) (eup s c') -> inv s'.
 Proof.
@@ -188,7 +188,7 @@ Proof.
   assert (Hcs : forall x, csum s' x = csum s x).
   { intro x. apply csum_same; [exact Hnt|]. intros j Hj. rewrite Hctl.
     destruct (Nat.eqb_spec j t); [subst j|reflexivity].
-    unfold ccon. rewrite Hk. destruct (tk (ctl s t)); [reflexivity|reflexivity|rewrite Hr; reflexivity]. }
+    unfold ccon. rewrite Hk. destruct (tk (ctl s t)) eqn:Hkk; [reflexivity|reflexivity|rewrite (Hr _ eq_refl); reflexivity]. }
   assert (Heu : forall j, eu (obj s' j) = eu (obj s j)).
   { intro j. rewrite Hobj. destruct (Nat.eqb_spec j t); [subst j; exact He|reflexivity]. }
   assert (Htk : forall j, tk (ctl s' j) = tk (ctl s j)).
